@@ -7,7 +7,7 @@ from sa.astx import call_attr, call_name, names_read, src, statements, walk_loca
 from sa.effects import class_accesses
 from sa.selftest import Mutant, Silent
 from sa.source import AnalysisError
-from sa.props._lib_i import COMPAT, BlockRaised, NotPure, Raised, eval_block, interp, peval
+from sa.props._lib_i import sect, COMPAT, BlockRaised, NotPure, Raised, eval_block, interp, peval
 
 PROPERTY = "C45"
 JELLY = "spread/jelly.py"
@@ -111,7 +111,8 @@ def check(ctx):
     meths = [(q, f) for q, f in mod.functions() if q.startswith("_Unjellier.")]
     ctx.need(meths, "_Unjellier methods")
     n_res = n_inst = n_getattr = 0
-    for q, f in meths:
+    def scan_method(q, f):
+        nonlocal n_res, n_inst, n_getattr
         ctx.functions.add(f"{JELLY}:{q}")
         g = ctx.cfg(f)
         fq = base + q
@@ -208,75 +209,81 @@ def check(ctx):
             if isinstance(c, ast.Call) and call_name(c) in ("unjelly", "jelly.unjelly", "_Unjellier", "DummySecurityOptions"):
                 ctx.violation("taster/no-policy-reset", ctx.construct(fq, c),
                               f"{call_name(c)}(...) inside _Unjellier starts a nested unjelly with the default allow-everything policy instead of self.taster")
+    for q, f in meths:
+        with sect(ctx, q):          # one unreadable method must not hide the sinks of the others
+            scan_method(q, f)
     ctx.ok("taster/no-policy-reset", base + "_Unjellier", f"{len(meths)} methods scanned")
     ctx.floor("resolver sinks", n_res, 4)
     ctx.floor("instantiation sinks", n_inst, 4)
     ctx.floor("getattr sites", n_getattr, 3)
 
     # ---- R4 unjelly(): type policy first, one atom for everything
-    f = ctx.func(JELLY, "_Unjellier.unjelly")
-    g = ctx.cfg(f)
-    fq = base + "_Unjellier.unjelly"
-    tguards = g.ids(lambda n: n.kind == "test" and isinstance(n.ast, ast.Call) and call_name(n.ast) == "self.taster.isTypeAllowed")
-    ctx.check(len(tguards) >= 1, "type-policy/first", fq + " | isTypeAllowed test", "unjelly() no longer asks the policy whether the type atom is allowed")
-    acted = 0
-    for n in g.ids(lambda n: n.kind in ("stmt", "test")):
-        node = g.node(n)
-        calls = [c for c in walk_local(node.ast) if isinstance(c, ast.Call) and call_name(c) not in ("type", "self.taster.isTypeAllowed", "InsecureJelly")]
-        if not calls or n in tguards:
-            continue
-        if isinstance(node.ast, ast.Raise):
-            continue
-        acted += 1
-        ok = any(True for a in _guard_args(g, n, "isTypeAllowed"))
-        ctx.check(ok, "type-policy/first", ctx.construct(fq, node.ast),
-                  "this step of unjelly() runs before / without self.taster.isTypeAllowed(atom) having answered true", witness=g.describe(g.path([g.entry], [n])))
-    ctx.floor("type-policy/first", acted, 6)
-    # the atom asked about is the atom dispatched on
-    atom_exprs = []
-    for t in tguards:
-        atom_exprs.append(("policy", g.node(t).ast.args[0]))
-    for c in ast.walk(f):
-        if isinstance(c, ast.Call) and call_attr(c) == "get" and "Registry" in src(c.func) and c.args:
-            atom_exprs.append(("registry", c.args[0]))
-        if _is_call_to(c, RESOLVERS_OBJECT) and c.args:
-            atom_exprs.append(("resolver", c.args[0]))
-    for sample in SAMPLES:
-        vals = _slice_values(f, [e for _, e in atom_exprs], [sample, [b"dictionary"]], funcs)
-        norm = [(v.decode("ascii") if isinstance(v, bytes) else v) for v in vals]
-        bad = [(k, v) for (k, _), v in zip(atom_exprs, norm) if v != sample.decode("ascii")]
-        if bad:
-            ctx.violation("type-policy/same-atom", fq + " | one atom for policy, registry and resolution",
-                          f"for the s-expression [{sample!r}, ...] the {bad[0][0]} step uses {bad[0][1]!r} instead of the atom the type policy was asked about")
-            break
-    else:
-        ctx.ok("type-policy/same-atom", fq + " | one atom for policy, registry and resolution", f"{len(atom_exprs)} uses x {len(SAMPLES)} samples")
+    with sect(ctx, 'R4 unjelly(): type policy first, one atom for everything'):
+        f = ctx.func(JELLY, "_Unjellier.unjelly")
+        g = ctx.cfg(f)
+        fq = base + "_Unjellier.unjelly"
+        tguards = g.ids(lambda n: n.kind == "test" and isinstance(n.ast, ast.Call) and call_name(n.ast) == "self.taster.isTypeAllowed")
+        ctx.check(len(tguards) >= 1, "type-policy/first", fq + " | isTypeAllowed test", "unjelly() no longer asks the policy whether the type atom is allowed")
+        acted = 0
+        for n in g.ids(lambda n: n.kind in ("stmt", "test")):
+            node = g.node(n)
+            calls = [c for c in walk_local(node.ast) if isinstance(c, ast.Call) and call_name(c) not in ("type", "self.taster.isTypeAllowed", "InsecureJelly")]
+            if not calls or n in tguards:
+                continue
+            if isinstance(node.ast, ast.Raise):
+                continue
+            acted += 1
+            ok = any(True for a in _guard_args(g, n, "isTypeAllowed"))
+            ctx.check(ok, "type-policy/first", ctx.construct(fq, node.ast),
+                      "this step of unjelly() runs before / without self.taster.isTypeAllowed(atom) having answered true", witness=g.describe(g.path([g.entry], [n])))
+        ctx.floor("type-policy/first", acted, 6)
+        # the atom asked about is the atom dispatched on
+        atom_exprs = []
+        for t in tguards:
+            atom_exprs.append(("policy", g.node(t).ast.args[0]))
+        for c in ast.walk(f):
+            if isinstance(c, ast.Call) and call_attr(c) == "get" and "Registry" in src(c.func) and c.args:
+                atom_exprs.append(("registry", c.args[0]))
+            if _is_call_to(c, RESOLVERS_OBJECT) and c.args:
+                atom_exprs.append(("resolver", c.args[0]))
+        for sample in SAMPLES:
+            vals = _slice_values(f, [e for _, e in atom_exprs], [sample, [b"dictionary"]], funcs)
+            norm = [(v.decode("ascii") if isinstance(v, bytes) else v) for v in vals]
+            bad = [(k, v) for (k, _), v in zip(atom_exprs, norm) if v != sample.decode("ascii")]
+            if bad:
+                ctx.violation("type-policy/same-atom", fq + " | one atom for policy, registry and resolution",
+                              f"for the s-expression [{sample!r}, ...] the {bad[0][0]} step uses {bad[0][1]!r} instead of the atom the type policy was asked about")
+                break
+        else:
+            ctx.ok("type-policy/same-atom", fq + " | one atom for policy, registry and resolution", f"{len(atom_exprs)} uses x {len(SAMPLES)} samples")
 
     # ---- who may write the taster / the registries
-    acc = [a for a in class_accesses(mod, cls, {"taster"}, receivers={"self"})]
-    for a in acc:
-        ctx.check(a.func == "_Unjellier.__init__", "taster/who-may-write", ctx.construct(base + a.func, a.node), "self.taster is replaced after construction: later checks consult a different policy")
-    ctx.floor("taster/who-may-write", len(acc), 1)
-    nreg = 0
-    for q, fn in mod.functions():
-        for st in ast.walk(fn):
-            tgt = None
-            if isinstance(st, (ast.Assign, ast.AugAssign)):
-                for t in (st.targets if isinstance(st, ast.Assign) else [st.target]):
-                    root = t.value if isinstance(t, ast.Subscript) else t
-                    if isinstance(root, ast.Name) and root.id in REGISTRY_WRITERS.values():
-                        tgt = root.id
-            elif isinstance(st, ast.Call) and isinstance(st.func, ast.Attribute) and isinstance(st.func.value, ast.Name) and st.func.value.id in REGISTRY_WRITERS.values() \
-                    and st.func.attr in ("update", "setdefault", "pop", "clear", "__setitem__", "popitem"):
-                tgt = st.func.value.id
-            if tgt:
-                nreg += 1
-                ctx.check(REGISTRY_WRITERS.get(q) == tgt, "registry/who-may-write", ctx.construct(base + q, st if not isinstance(st, ast.Call) else st),
-                          f"{tgt} is modified in {q}: classes become instantiable from the wire without having been registered through the setUnjellyable* functions")
-    ctx.floor("registry/who-may-write", nreg, 2)
+    with sect(ctx, 'who may write the taster / the registries'):
+        acc = [a for a in class_accesses(mod, cls, {"taster"}, receivers={"self"})]
+        for a in acc:
+            ctx.check(a.func == "_Unjellier.__init__", "taster/who-may-write", ctx.construct(base + a.func, a.node), "self.taster is replaced after construction: later checks consult a different policy")
+        ctx.floor("taster/who-may-write", len(acc), 1)
+        nreg = 0
+        for q, fn in mod.functions():
+            for st in ast.walk(fn):
+                tgt = None
+                if isinstance(st, (ast.Assign, ast.AugAssign)):
+                    for t in (st.targets if isinstance(st, ast.Assign) else [st.target]):
+                        root = t.value if isinstance(t, ast.Subscript) else t
+                        if isinstance(root, ast.Name) and root.id in REGISTRY_WRITERS.values():
+                            tgt = root.id
+                elif isinstance(st, ast.Call) and isinstance(st.func, ast.Attribute) and isinstance(st.func.value, ast.Name) and st.func.value.id in REGISTRY_WRITERS.values() \
+                        and st.func.attr in ("update", "setdefault", "pop", "clear", "__setitem__", "popitem"):
+                    tgt = st.func.value.id
+                if tgt:
+                    nreg += 1
+                    ctx.check(REGISTRY_WRITERS.get(q) == tgt, "registry/who-may-write", ctx.construct(base + q, st if not isinstance(st, ast.Call) else st),
+                              f"{tgt} is modified in {q}: classes become instantiable from the wire without having been registered through the setUnjellyable* functions")
+        ctx.floor("registry/who-may-write", nreg, 2)
 
     # ---- SecurityOptions predicates on a finite domain
-    _check_security_options(ctx, mod, funcs)
+    with sect(ctx, 'SecurityOptions predicates on a finite domain'):
+        _check_security_options(ctx, mod, funcs)
 
 
 def _class_provenance(ctx, f, g, sink, carg):
